@@ -173,11 +173,11 @@ def takeLast (a : NDA GQ) (c : Nat) : NDA GQ := ⟨a.shape.dropLast, fun idx => 
 
 /-- `np.stack(parts, axis=-1)` -/
 def npStack (parts : List (NDA GQ)) : M (NDA GQ) :=
-  match parts with
-  | [] => .error .value
-  | p :: ps =>
-    if ps.all (fun q => decide (q.shape = p.shape)) then
-      .ok ⟨p.shape ++ [parts.length], fun idx => ((p :: ps).getD (lastAx idx) p).get idx.dropLast⟩
+  match parts.head? with
+  | none => .error .value
+  | some p =>
+    if parts.all (fun q => decide (q.shape = p.shape)) then
+      .ok ⟨p.shape ++ [parts.length], fun idx => (parts.getD (lastAx idx) p).get idx.dropLast⟩
     else .error .value
 
 /-- `np.full(T, v)` / `np.broadcast_to(v, T)` -/
